@@ -88,6 +88,12 @@ def _extra_configs(tier):
         for v in sorted({-2, -1, 0, 1, (1 << w) - 1, 1 << w, (1 << w) + 1}):
             out.append({'block': 'Constant', 'w': w, 'v': v})
         out.append({'block': 'Latch', 'w': w})
+        if w == 1:
+            # constants of more than 32 bits, negative ones too
+            for ww, vs in ((40, (-(1 << 40), -(1 << 39), (1 << 40) - 16, 1 << 32, -1)), (64, (-(1 << 63), (1 << 64) - 1, 1 << 63, 1 << 31)),
+                           (65, (-(1 << 64), (1 << 64) + 1))):
+                for v in vs:
+                    out.append({'block': 'Constant', 'w': ww, 'v': v})
         for k in ('Add', 'Reg', 'Abs', 'Counter'):
             out.append({'block': 'Twin', 'kind': k, 'w': w})
         out.append({'block': 'TwinDifferentOptions', 'kind': 'Add', 'w': w})
